@@ -45,7 +45,13 @@ def ConstSeqOf(items):
 
 
 class GBCall:
+    streams = ()
+
     def __init__(self):
+        self.streams = []
+        self._init2()
+
+    def _init2(self):
         self.keys = []
         self.result_blocks = None
         self.oc = None
@@ -477,9 +483,21 @@ def _blocks_of(c, it, arg, by_name, tag, pos, rec):
             z = by_name[key.attrs["name"]]
             return _block_for(c, it, key.attrs["name"], z, zarr_grids(it, z), tuple(key.attrs["coords"]))
 
-        m = MapSeq(arg, blk, lazy=arg.lazy, is_list=arg.is_list)
+        m = _PosMapSeq(arg, blk, lazy=arg.lazy, is_list=arg.is_list)
+        rec.streams.append((pos, arg, m))
         return m
     raise Unsupported(f"key function returned {type(arg).__name__}")
+
+
+class _PosMapSeq(MapSeq):
+    """the blocks a task receives as a list/stream: the k-th block is tagged with its position, so that a block
+    function's result can be shown to fold positions 0..m-1, each once (positional aggregation provenance)"""
+
+    def get(self, interp, k):
+        b = MapSeq.get(self, interp, k)
+        if isinstance(b, SymBlock):
+            b.aggpos = dict(seq=id(self), lo=k, hi=k + 1, cond=[])
+        return b
 
 
 def _check_block(c, it, blk, reg, tag, otag, j):
